@@ -6,7 +6,9 @@ cd /verif
 pat=${1:-}
 out=.build/seeded_regress.log
 : > $out
-for d in seeded/*${pat}*/; do
+# a first argument that names a file is a list of ids (one per line); otherwise a pattern
+if [ -f "$pat" ]; then dirs=$(sed 's#^#seeded/#; s#$#/#' "$pat"); else dirs=$(ls -d seeded/*${pat}*/); fi
+for d in $dirs; do
   id=$(basename $d)
   prop=$(python3 -c "import json;print(json.load(open('$d/meta.json'))['property'])")
   r=$(tools/try_mutant.sh $prop /verif/$d/patch.diff quick 2>&1 | grep -v conda)
